@@ -137,7 +137,7 @@ func c17FindEncoders(c *kit.Ctx, rel string, sumFn types.Object) []*c17Encoder {
 }
 
 func runC17(c *kit.Ctx) {
-	r1 := c.Rule("R1", "encoder and decoder agree on the packet layout", 8)
+	r1 := c.Rule("R1", "encoder and decoder agree on the packet layout", 10)
 	r2 := c.Rule("R2", "checksum acceptance table", 4)
 	r3 := c.Rule("R3", "decoder indices are implied by length guards", 8)
 	r4 := c.Rule("R4", "serial point codec field completeness", 8)
@@ -158,6 +158,8 @@ func runC17(c *kit.Ctx) {
 	em := c17AnalyseEncoder(c, enc)
 
 	c17Layout(c, r1, enc, em, dec, dm)
+	c17Storage(c, r1, enc, em)
+	c17Coverage(c, r1, dec, dm)
 	c17Acceptance(c, r2, dec, dm, em)
 
 	// R3
@@ -323,6 +325,12 @@ type c17EncModel struct {
 	guardOK    bool
 	guardMsg   string
 	problems   []string
+	// where the buffer comes from: "local" | "pool" | "pkgvar" | "param" | "unknown"
+	origin     string
+	originPool types.Object
+	putBack    bool // handed back to a pool inside the encoder
+	resetFirst bool // emptied before the first write
+	resetAny   bool
 }
 
 func c17AnalyseEncoder(c *kit.Ctx, enc *c17Encoder) *c17EncModel {
@@ -459,9 +467,31 @@ func c17AnalyseEncoder(c *kit.Ctx, enc *c17Encoder) *c17EncModel {
 			}
 			continue
 		default:
+			if q == c12PoolPut && len(call.Args) == 1 && onBuf(call.Args[0]) {
+				em.putBack = true
+				continue
+			}
 			// any other use of the buffer that may change it
 			if sel, ok := ast.Unparen(call.Fun).(*ast.SelectorExpr); ok && onBuf(sel.X) && q != "bytes.(*Buffer).Bytes" && q != "bytes.(*Buffer).Len" {
-				em.problems = append(em.problems, "unexpected buffer operation "+q)
+				switch {
+				case q == "bytes.(*Buffer).Grow" || q == "bytes.(*Buffer).Cap":
+				case q == "bytes.(*Buffer).Reset":
+					em.resetAny = true
+					if len(em.segs) == 0 && em.sumAfter < 0 && topLevel(call) {
+						em.resetFirst = true
+					} else {
+						em.problems = append(em.problems, "the buffer is Reset after a write or conditionally")
+					}
+				default:
+					em.problems = append(em.problems, "unexpected buffer operation "+q)
+				}
+			} else if q != "encoding/binary.Write" {
+				// the buffer itself handed to another function
+				for _, a := range call.Args {
+					if onBuf(a) {
+						em.problems = append(em.problems, "the buffer is passed to "+q)
+					}
+				}
 			}
 			continue
 		}
@@ -469,6 +499,71 @@ func c17AnalyseEncoder(c *kit.Ctx, enc *c17Encoder) *c17EncModel {
 			em.problems = append(em.problems, fmt.Sprintf("write %s is conditional or repeated", f.Str(call)))
 		}
 		em.segs = append(em.segs, *seg)
+	}
+	// origin of the buffer
+	em.origin = "unknown"
+	if v, ok := enc.buf.(*types.Var); ok {
+		isParam := false
+		for _, p := range f.Params() {
+			if p == enc.buf {
+				isParam = true
+			}
+		}
+		switch {
+		case isParam:
+			em.origin = "param"
+		case v.Pkg() != nil && v.Parent() == v.Pkg().Scope():
+			em.origin = "pkgvar"
+		default:
+			ndef, fresh := 0, true
+			var pool types.Object
+			ast.Inspect(f.Body, func(x ast.Node) bool {
+				switch y := x.(type) {
+				case *ast.ValueSpec:
+					for i, nm := range y.Names {
+						if info.Defs[nm] == enc.buf {
+							ndef++
+							if i < len(y.Values) && !c17FreshBuffer(info, y.Values[i]) {
+								fresh = false
+								pool = c12PoolOfGet(info, y.Values[i])
+							}
+						}
+					}
+				case *ast.AssignStmt:
+					for i, l := range y.Lhs {
+						if id, isIdent := ast.Unparen(l).(*ast.Ident); isIdent && kit.ObjOf(info, id) == enc.buf {
+							ndef++
+							if len(y.Lhs) != len(y.Rhs) || !c17FreshBuffer(info, y.Rhs[i]) {
+								fresh = false
+								if len(y.Lhs) == len(y.Rhs) {
+									pool = c12PoolOfGet(info, y.Rhs[i])
+								}
+							}
+						}
+					}
+				}
+				return true
+			})
+			switch {
+			case ndef == 1 && fresh:
+				em.origin = "local"
+			case ndef == 1 && pool != nil:
+				em.origin, em.originPool = "pool", pool
+			case ndef == 1:
+				// a pointer to (or copy of the pointer in) a package-level variable
+				if def := c12SingleDef(f, enc.buf); def != nil {
+					e := ast.Unparen(def)
+					if u, ok := e.(*ast.UnaryExpr); ok && u.Op == token.AND {
+						e = ast.Unparen(u.X)
+					}
+					if id, ok := e.(*ast.Ident); ok {
+						if pv, ok := kit.ObjOf(info, id).(*types.Var); ok && pv.Pkg() != nil && pv.Parent() == pv.Pkg().Scope() {
+							em.origin = "pkgvar"
+						}
+					}
+				}
+			}
+		}
 	}
 	// the buffer must not escape in other ways (passed by address elsewhere)
 	ast.Inspect(f.Body, func(x ast.Node) bool {
@@ -570,7 +665,14 @@ func c17Layout(c *kit.Ctx, r *kit.Rule, enc *c17Encoder, em *c17EncModel, dec *c
 		r.Ob(ef, nil, "subject length refusal", "a subject longer than its field never reaches the copy").Undecided("encoder shape not understood")
 		return
 	}
-	oShape.OK("writes [%s]; checksum over the first three", shape)
+	switch {
+	case (em.origin == "pool" && em.putBack || em.origin == "pkgvar") && !em.resetFirst && !em.resetAny:
+		oShape.Violation("the buffer is shared (%s) and is never emptied before the first write: the packet is appended to the bytes of the previous packet", em.origin)
+	case em.origin != "local" && !em.resetFirst:
+		oShape.Undecided("the buffer is not created inside the call (%s) and is not Reset before the first write", em.origin)
+	default:
+		oShape.OK("writes [%s]; checksum over the first three", shape)
+	}
 	seqOff, subOff, payOff := offset(iSeq), offset(iSub), offset(iPay)
 	crcSize := sCrc.size
 
@@ -933,5 +1035,136 @@ func c17Acceptance(c *kit.Ctx, r *kit.Rule, dec *c17Decoder, dm *c17DecModel, em
 		oVal.OK("every rejecting exit lies before the tests or on the mismatch edge")
 	} else {
 		oVal.Violation("%s", badVal[0])
+	}
+}
+
+// c17FreshBuffer: an expression that creates a new, unshared bytes.Buffer.
+func c17FreshBuffer(info *types.Info, e ast.Expr) bool {
+	if c12IsFreshExpr(info, e) {
+		return true
+	}
+	if call, ok := ast.Unparen(e).(*ast.CallExpr); ok {
+		return kit.CallIs(info, call, "bytes.NewBuffer", "bytes.NewBufferString")
+	}
+	return false
+}
+
+// c17Storage: the packet handed to the caller must not share storage with a
+// buffer that somebody else will write again.
+func c17Storage(c *kit.Ctx, r *kit.Rule, enc *c17Encoder, em *c17EncModel) {
+	f := enc.f
+	info := f.Info()
+	o := r.Ob(f, nil, "returned packet storage", "the returned packet does not alias a buffer that outlives the call in other hands (a pooled or package-level buffer)")
+	var classify func(e ast.Expr, depth int) string
+	mentionsBuf := func(e ast.Expr) bool {
+		hit := false
+		ast.Inspect(e, func(x ast.Node) bool {
+			if id, ok := x.(*ast.Ident); ok && kit.ObjOf(info, id) == enc.buf {
+				hit = true
+			}
+			return !hit
+		})
+		return hit
+	}
+	classify = func(e ast.Expr, depth int) string {
+		e = ast.Unparen(e)
+		if depth > 5 {
+			return "unknown"
+		}
+		if kit.IsNilIdent(info, e) {
+			return "fresh"
+		}
+		switch x := e.(type) {
+		case *ast.CompositeLit:
+			return "fresh"
+		case *ast.SliceExpr:
+			return classify(x.X, depth+1)
+		case *ast.Ident:
+			ob := kit.ObjOf(info, x)
+			if ob == nil {
+				return "unknown"
+			}
+			if def := c12SingleDef(f, ob); def != nil {
+				return classify(def, depth+1)
+			}
+			return "unknown"
+		case *ast.CallExpr:
+			if kit.CallIs(info, x, "bytes.(*Buffer).Bytes") {
+				if sel, ok := ast.Unparen(x.Fun).(*ast.SelectorExpr); ok {
+					recv := ast.Unparen(sel.X)
+					if u, ok := recv.(*ast.UnaryExpr); ok && u.Op == token.AND {
+						recv = ast.Unparen(u.X)
+					}
+					if kit.ObjOf(info, recv) == enc.buf {
+						return "alias"
+					}
+				}
+				return "unknown"
+			}
+			if tv, ok := info.Types[x.Fun]; ok && tv.IsType() && len(x.Args) == 1 {
+				if _, isStr := info.TypeOf(x.Args[0]).Underlying().(*types.Basic); isStr {
+					return "fresh" // []byte(string) copies
+				}
+				return classify(x.Args[0], depth+1)
+			}
+			if b, ok := kit.Callee(info, x).(*types.Builtin); ok {
+				switch b.Name() {
+				case "make":
+					return "fresh"
+				case "append":
+					if len(x.Args) > 0 {
+						return classify(x.Args[0], depth+1) // appended elements are copied
+					}
+				}
+				return "unknown"
+			}
+			if kit.CallIs(info, x, "bytes.Clone", "slices.Clone") {
+				return "fresh"
+			}
+			if !mentionsBuf(x) {
+				return "fresh"
+			}
+			return "unknown"
+		}
+		return "unknown"
+	}
+	var alias, unknown []string
+	ast.Inspect(f.Body, func(x ast.Node) bool {
+		switch y := x.(type) {
+		case *ast.FuncLit:
+			return false
+		case *ast.ReturnStmt:
+			if len(y.Results) == 0 {
+				unknown = append(unknown, "naked return")
+				return true
+			}
+			switch classify(y.Results[0], 0) {
+			case "alias":
+				alias = append(alias, fmt.Sprintf("`%s` (%s)", f.Str(y), f.At(y)))
+			case "unknown":
+				unknown = append(unknown, fmt.Sprintf("`%s` (%s)", f.Str(y), f.At(y)))
+			}
+		}
+		return true
+	})
+	switch {
+	case len(alias) == 0 && len(unknown) == 0:
+		o.OK("every return hands out freshly allocated or copied bytes")
+	case len(alias) == 0:
+		o.Undecided("the storage of the returned slice is not understood at %s", unknown[0])
+	case em.origin == "local":
+		o.OK("%s returns the bytes of a buffer created inside the call", alias[0])
+	case em.origin == "pool" && em.putBack:
+		pn := "a sync.Pool"
+		if em.originPool != nil {
+			pn = "sync.Pool " + em.originPool.Name()
+		}
+		o.Violation("%s returns the bytes of a buffer taken from %s, and the same call puts that buffer back into the pool: the packet shares storage with the buffer the next encoder call Resets and rewrites, so a packet still held by the caller changes (or becomes a valid frame with another packet's content)", alias[0], pn)
+	case em.origin == "pool":
+		o.OK("%s returns the bytes of a pooled buffer that is never put back (nobody else can reach it)", alias[0])
+	case em.origin == "pkgvar":
+		o.Violation("%s returns the bytes of the package-level buffer %s, which the next encoder call rewrites", alias[0], enc.buf.Name())
+	default:
+		o.Undecided("%s returns the bytes of a buffer of %s origin", alias[0], em.origin)
 	}
 }
